@@ -159,7 +159,7 @@ def tlc(module, cfg, env=None, workers=None, timeout=1800, simulate=None, depth_
         m = re.search(r"Invariant (\w+) is violated", r.stdout)
         if m:
             res.violated = m.group(1)
-        m = re.search(r"Temporal properties were violated", r.stdout)
+        m = re.search(r"Temporal propert(ies were|y \w+ was) violated", r.stdout)
         if m and not res.violated:
             res.violated = "temporal"
         m = re.search(r"Postcondition (\w+)", errs[0])
@@ -212,6 +212,8 @@ def validate_trace(module, cfg, trace_path, n_events, max_violations=12, timeout
     rejection does not hide the rest of the trace."""
     start = 1
     bad = []
+    inv_hit = {}
+    validate_trace.invariants = inv_hit
     states = 0
     trans = 0
     matched_total = 0
@@ -225,10 +227,21 @@ def validate_trace(module, cfg, trace_path, n_events, max_violations=12, timeout
             mm = re.match(r'<<"MATCHED", (-?\d+), (\d+)>>', p)
             if mm:
                 m = (int(mm.group(1)), int(mm.group(2)))
-        if m is None:
+        if m is None and r.violated and r.violated not in ("TraceAccepted", "assumption"):
+            # an invariant of the specification is false in a state of the trace: the event that
+            # led into that state is the rejected one (the state's l is one past it)
+            ls = re.findall(r"^/\\ l = (\d+)", r.output, re.M)
+            if not ls:
+                log(r.output[-3000:])
+                raise ToolError(f"trace validation {module}: invariant {r.violated} violated but no state printed")
+            matched, total = int(ls[-1]) - 2, n_events
+            log(f"[trace] invariant {r.violated} violated after event {matched + 1}")
+            inv_hit[matched + 1] = r.violated
+        elif m is None:
             log(r.output[-3000:])
             raise ToolError(f"trace validation {module}: no MATCHED line (TLC error: {r.error})")
-        matched, total = m
+        else:
+            matched, total = m
         if total != n_events:
             raise ToolError(f"trace length mismatch: TLC saw {total}, harness wrote {n_events}")
         states += r.distinct
